@@ -88,7 +88,7 @@ mixed funs(int n) {
   function f5 = function(int p, int q) { int r = p * q; return function(int z) { return z + 1; }; };
   function f6 = (: this_object(), "va" :);
   mixed r = (*f5)(n, 2);
-  return ({ f1, f2, f3, f4, evaluate(f4, 1, 2), r, f6, (: gm :), this_object()->va(1, "s"), efun::time() > 0 });
+  return ({ f1, f2, f3, f4, evaluate(f4, 1, 2), r, f6, (: gm :), this_object()->va(1, "s"), efun::time() > 0, time() > 0, sizeof(ga), strlen(gs), sefun_add(1, 2) });
 }
 
 static nomask int locals(int a0, int a1, int a2) {
